@@ -46,7 +46,7 @@ func c11Seq(k int) {
 		} else {
 			e.doEvent(ev)
 		}
-		zzvrt.RunSpawnedExcept("setHandshakeTimer")
+		zzvrt.RunAll() // everything the event spawned runs; short delays elapse, handshake timers stay pending (SetTimerLimit in newEnv)
 		n := e.log.count(evClosed)
 		zzvrt.Assert(n <= 1, "C11.end-reported-twice")
 		if e.w.closed {
